@@ -53,6 +53,22 @@ func acceptedWorkload(c *fw.Ctx, scale int, emit emitFn) {
 	allOfGrid(emit)
 	// path variables described through a user type ("Path", "@p") and, for comparison, the same properties written in the Path body
 	pathVarsThroughType(emit)
+	// type ladders (ladder.go): small ones are accepted and must be written; large ones whose references are optional are cheap
+	// to build - the serialisers meet the exponentially large example (D71)
+	for _, ln := range []int{14, 20, 40, 60} {
+		for form := 0; form < ladderForms; form++ {
+			for deco := 0; deco < ladderDecos; deco++ {
+				if ln >= 40 && deco != 1 && deco != 2 && deco != 6 {
+					continue
+				}
+				n := ln
+				if form == 4 && n <= 20 {
+					n -= 5 // copying inherited properties is costly: fifteen types take as long as twenty with any other form
+				}
+				emit("type-ladder", singleJob(fmt.Sprintf("ladder-n%d-%s-%s", n, ladderFormNames[form], ladderDecoNames[deco]), typeLadder(n, form, deco), false))
+			}
+		}
+	}
 	// targeted generator
 	schemas := []string{
 		`{"id": 1}`, `{"id": "a"}`, `{"id": 1 // {min: 5}` + "\n}", `{"id": "abc" // {minLength: 10}` + "\n}", `{"id": @t}`, `{"id": @undefined}`,
